@@ -5,6 +5,7 @@ import (
 	"fmt"
 	"os"
 	"path/filepath"
+	"strconv"
 	"strings"
 	"testing"
 	"time"
@@ -304,7 +305,7 @@ var c15Degeneracies = []string{
 	"key-type-vs-material", "ed25519-short", "ed25519-nonhex", "key-garbage-pem", "rootca-garbage", "intermediate-garbage", "empty-run", "name-glob", "name-separator", "name-dotdot",
 	"duplicate-step", "steps-null", "inspect-null", "keys-null", "expected-null", "huge-readme", "verifier-key-short", "verifier-key-mismatch", "step-and-inspection-same-name",
 	"link-garbage", "link-empty-object", "link-null-members", "link-bad-cert", "link-pubkey-as-cert", "link-unauthorised-sublayout", "link-authorised-sublayout-no-dir",
-	"linkdir-is-workdir-fifo", "linkdir-is-workdir-symlink-to-fifo", "link-dir", "link-dangling-symlink", "link-fifo", "link-symlink-to-fifo", "link-symlink-to-dir", "link-wrong-shape", "link-materials-null", "link-name-mismatch", "link-sig-garbage", "link-many-sigs", "constraint-odd", "cert-link-odd-constraints", "cert-link-odd-constraints",
+	"truncated-match-rule:5", "truncated-match-rule:7", "truncated-match-rule:9", "truncated-match-rule:10", "truncated-match-rule:11", "truncated-match-rule:3", "linkdir-is-workdir-fifo", "linkdir-is-workdir-symlink-to-fifo", "link-dir", "link-dangling-symlink", "link-fifo", "link-symlink-to-fifo", "link-symlink-to-dir", "link-wrong-shape", "link-materials-null", "link-name-mismatch", "link-sig-garbage", "link-many-sigs", "constraint-odd", "cert-link-odd-constraints", "cert-link-odd-constraints",
 	"name-glob-shorter-match", "name-many-stars", "key-public-is-private", "key-private-is-public", "verifier-key-public-is-private",
 }
 
@@ -349,6 +350,20 @@ func c15Apply(w hx.World, kinds []string) hx.World {
 			}
 		case "one-token-rule":
 			s0.ExpProd = append([][]string{{"ALLOW"}, {"MATCH"}, {""}}, s0.ExpProd...)
+		case "truncated-match-rule:3", "truncated-match-rule:5", "truncated-match-rule:7", "truncated-match-rule:9", "truncated-match-rule:10", "truncated-match-rule:11":
+			// MATCH rules that lost their tail at every position (even token counts included)
+			full := []string{"MATCH", "*", "IN", "src", "WITH", "PRODUCTS", "IN", "dst", "FROM", s0.Name}
+			var cut [][]string
+			for n := 1; n < len(full); n++ {
+				cut = append(cut, append([]string{}, full[:n]...))
+			}
+			cut = append(cut, []string{"MATCH", "*", "WITH", "PRODUCTS", "IN", "dst"}, []string{"MATCH", "*", "IN", "src", "WITH", "MATERIALS"}, []string{"MATCH", "*", "WITH", "MATERIALS", "FROM"})
+			which, _ := strconv.Atoi(strings.SplitN(k, ":", 2)[1])
+			if len(links)%2 == 0 {
+				s0.ExpMat = append([][]string{cut[which%len(cut)]}, s0.ExpMat...)
+			} else {
+				s0.ExpProd = append(append([][]string{}, s0.ExpProd...), cut[which%len(cut)])
+			}
 		case "threshold-zero":
 			s0.Threshold = 0
 			links = dropLinks(links, s0.Name)
